@@ -1,0 +1,39 @@
+//go:build verif
+
+package selfmon
+
+import (
+	"context"
+
+	"github.com/projecteru2/core/cluster"
+	"github.com/projecteru2/core/store"
+	"github.com/projecteru2/core/types"
+)
+
+// Verification hooks (build tag `verif` only).  RunNodeStatusWatcher builds
+// its own store from the config; these let an external harness run the same
+// watcher over an explicit cluster and store.  Nothing here changes behaviour.
+
+// VerifNew builds a watcher over the given cluster and store.
+func VerifNew(ID int64, config types.Config, cluster cluster.Cluster, store store.Store) *NodeStatusWatcher {
+	return &NodeStatusWatcher{ID: ID, config: config, cluster: cluster, store: store}
+}
+
+// VerifRun is run: the loop of withActiveLock(monitor).
+func (n *NodeStatusWatcher) VerifRun(ctx context.Context) { n.run(ctx) }
+
+// VerifWithActiveLock is withActiveLock.
+func (n *NodeStatusWatcher) VerifWithActiveLock(ctx context.Context, f func(ctx context.Context)) {
+	n.withActiveLock(ctx, f)
+}
+
+// VerifMonitor is monitor.
+func (n *NodeStatusWatcher) VerifMonitor(ctx context.Context) error { return n.monitor(ctx) }
+
+// VerifInitNodeStatus is initNodeStatus.
+func (n *NodeStatusWatcher) VerifInitNodeStatus(ctx context.Context) { n.initNodeStatus(ctx) }
+
+// VerifDealNodeStatusMessage is dealNodeStatusMessage.
+func (n *NodeStatusWatcher) VerifDealNodeStatusMessage(ctx context.Context, message *types.NodeStatus) {
+	n.dealNodeStatusMessage(ctx, message)
+}
